@@ -80,7 +80,14 @@ func genPayload(r *rand.Rand, risky bool) (payload string, want string, hasErr b
 		body.WriteString("</data>")
 	}
 	reply := `<rpc-reply xmlns="urn:ietf:params:xml:ns:netconf:base:1.0" message-id="{MID}">` + body.String() + `</rpc-reply>`
-	if r.IntN(4) == 0 {
+	if r.IntN(6) == 0 {
+		// a long start tag: namespace declarations before the message-id attribute
+		var ns strings.Builder
+		for i := between(r, 3, 8); i > 0; i-- {
+			fmt.Fprintf(&ns, ` xmlns:%s="urn:example:params:xml:ns:yang:%s"`, word(r, lower, 2, 5), word(r, lower+"-", 10, 40))
+		}
+		reply = `<rpc-reply xmlns="urn:ietf:params:xml:ns:netconf:base:1.0"` + ns.String() + ` message-id="{MID}">` + body.String() + `</rpc-reply>`
+	} else if r.IntN(4) == 0 {
 		reply = `<nc:rpc-reply xmlns:nc="urn:ietf:params:xml:ns:netconf:base:1.0" message-id="{MID}">` + body.String() + `</nc:rpc-reply>`
 	}
 	lead, trail := "", ""
@@ -105,6 +112,18 @@ func genPayload(r *rand.Rand, risky bool) (payload string, want string, hasErr b
 // '#', digits and line feeds.
 func genChunks(r *rand.Rand, payload string) []int {
 	n := len(payload)
+	if r.IntN(5) == 0 && n > 8 {
+		// many tiny chunks at the start of the message (every header is legal: sizes >= 1)
+		var sizes []int
+		used := 0
+		for i := between(r, 10, 60); i > 0 && used < n-8; i-- {
+			sz := between(r, 1, 7)
+			sizes = append(sizes, sz)
+			used += sz
+		}
+
+		return sizes
+	}
 	k := pick(r, 1, 1, 2, 3, 5, 12)
 	if k == 1 || n < 2 {
 		return nil
@@ -190,7 +209,7 @@ func genC02(seed uint64, run int, tier string) Scenario {
 			// what the read loop hands over: the message up to its end-of-chunks line
 			good = strings.TrimSuffix(good, "\n")
 			f.Raw = good
-			switch r.IntN(5) {
+			switch r.IntN(7) {
 			case 0:
 				f.Kind = pick(r, "short-data", "oversize", "size-smaller", "negative", "nonnumeric", "toolong", "missing-lf", "missing-hash", "empty-size")
 				f.Raw = strings.TrimSuffix(peer.Malform(f.Kind, payload, sizes), "\n")
@@ -200,6 +219,18 @@ func genC02(seed uint64, run int, tier string) Scenario {
 			case 2:
 				f.Kind = "truncate"
 				f.Raw = good[:r.IntN(len(good))]
+			case 4:
+				// a payload that contains "##", cut right after such a pair (inside the data)
+				pl := strings.ReplaceAll(payload, "<data>", "<data>ab##cd\n##ef")
+				if !strings.Contains(pl, "##") {
+					pl += "##"
+				}
+				g := strings.TrimSuffix(peer.Frame11(pl, genChunks(r, pl)), "\n##\n")
+				if i := strings.Index(g, "##"); i >= 0 {
+					f.Kind = "truncate"
+					f.Raw = g[:i+2]
+					f.Want, f.WantFail = "", false
+				}
 			case 3:
 				f.Kind = "literal"
 				f.Raw = pick(r, "#", "#5", "#-1\nabc\n##", "#5\nabc", "#3\nabc", "", "##", "\n", "\n#", "\n#\n", "#99999999999\nabc\n##", "#1\n", "#4\nab", "\n#3\nabc\n#", "\n#3\nabc\n#2", "#3\nabc\n##trailing")
@@ -278,7 +309,13 @@ func runC02(env *Env, s Scenario) {
 		}
 		clausePfx := ""
 		if ref.Risky {
+			// known finding: the read loop may cut such a reply short; the decoder then reports
+			// the truncation explicitly. A wrong result that is NOT marked failed is a different
+			// (unlisted) violation.
 			clausePfx = "double-hash-in-payload:"
+			if rec.Err == nil && !rec.Failed && rec.Result != want {
+				clausePfx = "double-hash-in-payload-silently-truncated:"
+			}
 			env.Probe("payload-with-double-hash")
 		}
 		if ref.Malform != "" {
